@@ -261,6 +261,9 @@ def run_property(prop, tier='quick', explain=None, quiet=False, write=True):
                 'wall_s': round(wall, 3),
                 'violations': len(new_viol),
             }
+            if tier == 'thorough':
+                from sa import minilint
+                ev['coverage']['minilint_cross_reference'] = minilint.lint_files(model, minilint.anchor_files(VERIF, prop))
             os.makedirs(os.path.join(VERIF, 'evidence'), exist_ok=True)
             with open(os.path.join(VERIF, 'evidence', f'{prop}.json'), 'w', encoding='utf-8') as f:
                 json.dump(ev, f, indent=1)
@@ -288,7 +291,7 @@ def main(argv=None):
             rc = max(rc, run_property(prop, a.tier))
         return rc
     rc = run_property(a.prop, a.tier, explain=a.explain)
-    if a.tier == 'thorough' and rc == 0:
+    if a.tier == 'thorough' and rc == 0 and not os.environ.get('VERIF_NO_SELFTEST'):
         from sa import selftest
         rc = selftest.run_for_property(a.prop)
     return rc
